@@ -302,7 +302,7 @@ theorem finalizer_held (cfg : Cfg) (rm : Remotes) (name : String) (s : Sys) (mem
     ∀ e ∈ (reconcile cfg rm name s).1.setEvents, e ∈ s.setEvents ∨ ¬ Releases name e := by
   have hcase : (mem.deleting || decide (mem.lifecycle = .archived)) = true := by
     rcases htear with h | h <;> simp [h]
-  simp only [reconcile, hget, hna, Bool.false_eq_true, ↓reduceIte, hcase, hfin]
+  simp only [reconcile, hget, hna, Bool.false_eq_true, ↓reduceIte, hcase, deletionOrArchival, hfin]
   cases hr : teardown cfg mem (rm.tear mem) s.w with
   | mk w tr =>
     rw [hr] at hnd
